@@ -1,14 +1,26 @@
 (* C19  The esolver program reports exactly what the library computed.
-   Level reached: exploration with verified oracles + proof of the solution-file codec.
+   Level reached: exploration with verified oracles + proof of the solution-file codec + a model of the program around
+   the library (IO/Esolver.v) with its own theorems, tied to the real program on generated argument lists every run.
    PROVED: a line "name = p/q" as printed by QSexact_print_sol is parsed back to the same name and the
    same rational (line_roundtrip, on read_print_num); a section lists exactly the non-zero entries and
    parses back to them (section_roundtrip, section_lists_nonzeros).
-   NOT PROVED: option parsing, file-type detection and the exit code of esolver's main (no model):
-   explored by running the binary over files x options and judging its output with the verified
-   certificate checker of C01-C03. *)
-From Coq Require Import List Ascii QArith.
+   PROVED about the model of esolver/esolver.c (ILLutil_bix_getopt call by call, parseargs with its usage errors, get_ftype
+   through EGioNParse, main with the library calls as parameters): the format is LP iff -L was given or the extension
+   says so (C19_format_by_flag_or_extension; C19_get_ftype_ext / _ext_z: base.ext and base.ext.gz|GZ|bz2|BZ2 are LP iff
+   ext is lp or LP); the exit code is 0 iff every step taken returned 0 (C19_exit_zero_iff), in particular -b on an
+   infeasible or unbounded LP writes no basis and exits 0 (C19_exit_zero_nonoptimal_basis, repair 8146872); the first
+   line of the solution file is a function of the status and the file exists only after a solve that returned 0 with -O
+   (C19_first_line, C19_no_file_unless_solved); option lists given one per argument are parsed to the configuration they
+   spell (C19_parse_wf).  C19_esolver_examples fixes the corner cases by computation: -E / -h / two files / no file are
+   usage errors, -v alone prints the version, ".lp" and "my file.lp" are NOT recognised as LP, and a name without any
+   token (".", "..", "") makes get_ftype read argv[-1] (FFault; on the program: SIGSEGV - open finding
+   F-io-esolver-ftype-no-token-C19, notes/repo_patches/esolver_ftype_no_token.diff).
+   NOT PROVED: that the model is the program (checked on ~350 runs each time: exit code, first line, basis file), and
+   what the library calls return (explored by running the binary over files x options and judging its output with the
+   verified certificate checker of C01-C03). *)
+From Coq Require Import List Ascii String ZArith QArith.
 Import ListNotations.
-From QSX Require Import IO.Num IO.NumSound IO.Sol.
+From QSX Require Import Gen.Consts IO.Num IO.NumSound IO.Sol IO.LpWrite IO.Esolver.
 Local Open Scope Q_scope.
 
 Theorem C19_line_roundtrip :
@@ -27,3 +39,64 @@ Theorem C19_section_lists_nonzeros :
   forall (l : list (list ascii * Q)) e, In e (filter nonzero l) <-> In e l /\ ~ snd e == 0.
 Proof. exact section_lists_nonzeros. Qed.
 Print Assumptions C19_section_lists_nonzeros.
+
+(* ---- the program around the library (IO/Esolver.v) ------------------------------------------------------------------------ *)
+Local Open Scope Z_scope.
+
+Theorem C19_format_by_flag_or_extension : forall c, the_ftype c = FLp <-> e_lp c = true \/ get_ftype (e_fname c) = FLp.
+Proof. exact format_by_flag_or_extension. Qed.
+Print Assumptions C19_format_by_flag_or_extension.
+
+Theorem C19_get_ftype_ext :
+  forall base ext, plain base -> plain ext -> (List.length (base ++ "."%char :: ext) <= 4095)%nat ->
+  get_ftype (base ++ "."%char :: ext) = if is_zsuffix ext then FMps else if is_lpext ext then FLp else FMps.
+Proof. exact get_ftype_ext. Qed.
+Print Assumptions C19_get_ftype_ext.
+
+Theorem C19_get_ftype_ext_z :
+  forall base ext z, plain base -> plain ext -> is_zsuffix z = true ->
+  (List.length (base ++ "."%char :: ext ++ "."%char :: z) <= 4095)%nat ->
+  get_ftype (base ++ "."%char :: ext ++ "."%char :: z) = if is_lpext ext then FLp else FMps.
+Proof. exact get_ftype_ext_z. Qed.
+Print Assumptions C19_get_ftype_ext_z.
+
+Theorem C19_exit_zero_iff : forall c e o, run c e = Some o -> (o_exit o = 0 <-> steps_ok c e).
+Proof. exact exit_zero_iff. Qed.
+Print Assumptions C19_exit_zero_iff.
+
+Theorem C19_exit_zero_nonoptimal_basis :
+  forall c e o wb, run c e = Some o -> e_wbasis c = Some wb -> v_status e <> c_QS_LP_OPTIMAL ->
+  read_ok c e = true -> (e_rbasis c <> None -> v_basis e = 0) ->
+  pprice_ok (e_pstrat c) = true -> dprice_ok (e_dstrat c) = true -> v_solver e = 0 -> o_exit o = 0 /\ o_basis o = false.
+Proof. exact exit_zero_nonoptimal_basis. Qed.
+Print Assumptions C19_exit_zero_nonoptimal_basis.
+
+Theorem C19_first_line :
+  forall c e o, run c e = Some o -> read_ok c e = true -> (e_rbasis c <> None -> v_basis e = 0) ->
+  pprice_ok (e_pstrat c) = true -> dprice_ok (e_dstrat c) = true -> v_solver e = 0 ->
+  o_line o = match e_sol c with Some _ => Some (status_line (v_status e)) | None => None end.
+Proof. exact first_line_spec. Qed.
+Print Assumptions C19_first_line.
+
+Theorem C19_no_file_unless_solved :
+  forall c e o l, run c e = Some o -> o_line o = Some l -> read_ok c e = true /\ v_solver e = 0 /\ e_sol c <> None.
+Proof. exact no_file_unless_solved. Qed.
+Print Assumptions C19_no_file_unless_solved.
+
+Theorem C19_parse_wf :
+  forall os fname, (match fname with "-"%char :: _ => False | _ => True end) ->
+  parse_args (flat_map render_opt os ++ [fname]) = finish_args (fold_left apply_opt os cfg0) [fname].
+Proof. exact parse_wf. Qed.
+Print Assumptions C19_parse_wf.
+
+Theorem C19_esolver_examples :
+  (match parse_args (map s2l ["-L"; "x.mps"]%string) with PCfg c => the_ftype c | _ => FFault end) = FLp /\
+  (match parse_args (map s2l ["-O"; "s.sol"; "a.b.lp.gz"]%string) with PCfg c => the_ftype c | _ => FFault end) = FLp /\
+  (match parse_args (map s2l ["-SLp"; "4"; "-Oout"; "f"]%string) with PCfg c => (e_lp c, e_scaling c, e_pstrat c, e_sol c) | _ => (false, true, 0, None) end)
+    = (true, false, 4, Some (s2l "out")) /\
+  parse_args (map s2l ["-E"; "x.lp"]%string) = PUsage /\ parse_args (map s2l ["-h"; "x.lp"]%string) = PUsage /\
+  parse_args (map s2l ["x.lp"; "y.lp"]%string) = PUsage /\ parse_args (map s2l ["-v"]%string) = PVersion /\
+  parse_args (map s2l ["-O"]%string) = PUsage /\ get_ftype (s2l ".lp") = FMps /\ get_ftype (s2l "my file.lp") = FMps /\
+  get_ftype (s2l ".") = FFault.
+Proof. exact esolver_examples. Qed.
+Print Assumptions C19_esolver_examples.
